@@ -271,7 +271,7 @@ M.contract(F, "match_row_to_acl", params=dict(row=STR, rules=Rules, exclusive=BO
 M.contract(F, "apply_acl_diff", params=dict(diff=Diff, rules=Rules), ret=Diff, locals=dict(passed=Diff),
            ensures=["result == spec_acl_diff(diff, rules)"],
            loops={1: dict(match="diff", inv=["passed + spec_acl_diff(_rest1, rules) == spec_acl_diff(diff, rules)"])},
-           canaries=["result == diff"], inputs=_acl_diff_inputs, exc_parents=EXC,
+           canaries=["result == diff"], inputs=_acl_diff_inputs, exc_parents=EXC, native_frame_skip=["rules"],
            properties=["C02"])
 
 M.contract(F, "apply_acl",
@@ -286,5 +286,5 @@ M.contract(F, "apply_acl",
                           inv=["twf(_rest1)", "ddisj(passed, _rest1)",
                                "spec_exc(_rest1, rules, fatal_acl, exclusive, with_annotations) == spec_exc(config, rules, fatal_acl, exclusive, with_annotations)",
                                "dapp(passed, spec_filter(_rest1, rules, with_annotations)) == spec_filter(config, rules, with_annotations)"])},
-           canaries=["result == config"], inputs=_apply_acl_inputs, exc_parents=EXC,
+           canaries=["result == config"], inputs=_apply_acl_inputs, exc_parents=EXC, native_frame_skip=["rules"],
            properties=["C06", "C02", "C10"])
